@@ -50,6 +50,14 @@ pub trait Prop {
     }
 }
 
+/// Known findings that a property met but stepped over (non-strict mode), so
+/// that the rest of the case is still explored: (signature, message).
+pub static SOFT_KNOWN: std::sync::Mutex<Vec<(String, String)>> = std::sync::Mutex::new(Vec::new());
+
+pub fn soft_known(signature: &str, msg: &str) {
+    SOFT_KNOWN.lock().unwrap_or_else(|e| e.into_inner()).push((signature.to_string(), msg.to_string()));
+}
+
 pub struct Ctx {
     pub tier: Tier,
     pub strict: bool,
@@ -198,7 +206,17 @@ pub fn run_worker<P: Prop>(tier: Tier, seed: u64, worker: usize, cases: u64) -> 
         };
         let case = tree.current();
         frag.evaluations += 1;
-        match P::run(&case, &ctx) {
+        SOFT_KNOWN.lock().unwrap_or_else(|e| e.into_inner()).clear();
+        let outcome = P::run(&case, &ctx);
+        let soft: Vec<(String, String)> = std::mem::take(&mut *SOFT_KNOWN.lock().unwrap_or_else(|e| e.into_inner()));
+        for (sig, msg) in soft {
+            *frag.classes.entry("known_finding_stepped_over".into()).or_default() += 1;
+            if !frag.known_hits.iter().any(|k| k.signature == sig) {
+                let replay = write_replay::<P>(&case, &sig, &msg, seed, worker);
+                frag.known_hits.push(ViolationRec { signature: sig, msg, replay, confirmed: "stepped over".into() });
+            }
+        }
+        match outcome {
             Outcome::Pass { nontrivial, classes, size } => {
                 if nontrivial {
                     frag.nontrivial_hashes.insert(hash_case(&case));
